@@ -1,6 +1,7 @@
 """C17 -- updating a repository preserves everything that was not deliberately changed (EditorUpdate.tla)."""
 import json, os
 import vlib
+import lifecyclelib
 from vlib import tlc, make_cfg, vh, workdir, write_ndjson, read_ndjson, Verdict, log
 
 PID = "C17"
@@ -43,11 +44,14 @@ def run(tier, seed):
            "samples": samples, "evaluations": stats["evaluations"], "distinct_nontrivial": len(stats["nontrivial"]),
            "rule": "cases = every state of EditorUpdate.tla: every subset of {unknown top-level member in targets / snapshot / timestamp, custom data on a target, a delegated role with its own signed file} x 0..2 added targets, alternating consistent_snapshot; the input repository is built by the harness's own writers, loaded, passed through RepositoryEditor::from_repo, new versions/expirations, sign, write; the written JSON is compared member by member with the input, the delegated role's file byte-for-byte as JSON and its signature re-verified; non-trivial = at least one feature present",
            "exhaustive": True}
+    cov.update(lifecyclelib.run_into(v, PID, tier, seed))
     return v.finish("model_checking", cov, ["TLC enumerates repository shapes and states what must be carried over; the comparison of written and input documents is done on the real files",
-                                            "the tuftool update command path is not yet exercised (library path only)"])
+                                            "the tuftool update command is exercised by Lifecycle.tla behaviours (create, foreign re-sign, update, transfer, refresh, clone, download) run through the tuftool binary"])
 
 
 def replay(path, seed):
+    if json.load(open(path))["replay"].get("lifecycle"):
+        return lifecyclelib.replay(path, PID, seed)
     rp = json.load(open(path))["replay"]
     w = workdir("c17")
     cp = os.path.join(w, "replay.ndjson")
